@@ -494,6 +494,17 @@ impl<C: ContentAddrStore> SealedState<C> {
     /// For example, when [auditor nodes](https://github.com/themeliolabs/themelio-node/blob/master/src/protocols/node.rs) sync with other nodes, they will apply a stream of blocks to persistent storage.
     /// Every epoch loop, [stakers nodes](https://github.com/themeliolabs/themelio-node/blob/master/src/storage/storage.rs#L161) will call `apply_block` on the latest confirmed block from the consensus algorithm.
     pub fn apply_block(&self, block: &Block) -> Result<SealedState<C>, StateError> {
+        // A block lists each of its transactions once. Its transaction set is keyed by the full encoding, so two elements can be
+        // the same transaction carrying different signatures; where applying a transaction twice is tolerated (the grandfathered
+        // mainnet faucet) such a padded block used to be accepted with the header of the unpadded one.
+        let mut listed = std::collections::HashSet::new();
+        if !block
+            .transactions
+            .iter()
+            .all(|tx| listed.insert(tx.hash_nosigs()))
+        {
+            return Err(StateError::DuplicateTx);
+        }
         let mut basis = self.next_unsealed();
         assert!(basis.pools.val_iter().count() >= 2);
         let transactions = block.transactions.iter().cloned().collect::<Vec<_>>();
